@@ -1443,3 +1443,5 @@ def run(res, facts, tier):
     _run_c03_prev13(res, facts, tier)
     from . import c01_vars
     c01_vars.run_cycle_rule(res, facts, tier)
+    from . import c01_scope
+    c01_scope.r14_balance(res, facts)
